@@ -225,11 +225,16 @@ def split_delay_tags(series, hed_schema, onsets):
         duration_tags = delay_string.find_top_level_tags({DefTagNames.DELAY_KEY})
         to_remove = []
         for tag, group in duration_tags:
-            delay = tag.value_as_default_unit()
-            if delay is None:
-                # No conversion to seconds (e.g. months, years, or an unknown unit): the group stays in its row.
+            try:
+                delay = tag.value_as_default_unit()
+                onset = float(onsets[i])
+            except ValueError:
+                # The value or the onset of the row is not a number: the group stays in its row (and is validated there).
                 continue
-            onset_mod = delay + float(onsets[i])
+            if delay is None or math.isnan(onset):
+                # No conversion to seconds (e.g. months, years, an unknown unit) or no onset: the group stays in its row.
+                continue
+            onset_mod = delay + onset
             to_remove.append(group)
             insert_index = split_df['original_index'].index.max() + 1
             split_df.loc[insert_index] = {'HED': str(group), 'onset': onset_mod, 'original_index': i}
